@@ -249,7 +249,11 @@ func apiGen(leanDir string) string {
 	}
 	// the constructors of SetOp, read from the model
 	ctors := map[string]bool{}
-	if src, err := os.ReadFile(leanDir + "/../Ops.lean"); err == nil {
+	src, err := os.ReadFile(leanDir + "/../Ops.lean")
+	if err != nil {
+		src, err = os.ReadFile("/verif/lean/Mq/Ops.lean")
+	}
+	if err == nil {
 		for _, m := range regexp.MustCompile(`(?m)^  \| ([a-zA-Z]+)[ (]`).FindAllStringSubmatch(string(src), -1) {
 			ctors[m[1]] = true
 		}
